@@ -21,9 +21,48 @@
 // several ready channels), so the oracle is not a step-for-step model but a set
 // of invariants over the observed history; wherever two orders of things that
 // happen at the same virtual instant are possible both are accepted.
+//
+// What is asserted (signature in brackets):
+//   - after Stop every channel returned by Query has delivered exactly one
+//     value, whether or not the caller reads it [no-verdict, double-verdict];
+//     Stop returns and no goroutine stays blocked [stop-does-not-return,
+//     goroutines-blocked-after-stop];
+//   - nil only if every request's handler returned Finished
+//     [success-with-unanswered-request];
+//   - an error is one of the documented ones and its trigger is in the
+//     history: Stop was called; the batch's cancel channel was closed; the
+//     hard or the idle timeout had elapsed; a request of the batch had just
+//     failed for the max(1,NumRetries)-th time (never with NoRetryMax) and
+//     the error is that failure's [unjustified-error/*, undocumented-error];
+//   - while a batch has no verdict (checked at every quiescent tick): not all
+//     of its requests are answered [no-verdict-after-all-answered]; none of
+//     its unanswered requests is left lying while a connected peer is idle
+//     [unanswered-request-not-reissued]; its idle timeout has not elapsed
+//     [idle-timeout-missed]; no peer works on it after its cancel channel
+//     was closed [cancel-ignored]; when a request fails for the last allowed
+//     time the batch ends there and then [retry-cap-not-enforced]; when a job
+//     of it ends after the hard deadline the batch ends there and then
+//     [hard-timeout-not-enforced]; an answered request is not sent again
+//     [answered-request-reissued];
+//   - when the dispatcher had the choice between idle peers it did not take
+//     one with a strictly worse score [worse-ranked-peer-preferred];
+//   - the dispatcher never stops taking Query calls and peers
+//     [dispatcher-stuck/*], and a probe batch launched at an arbitrary moment
+//     (or after all scripted batches have ended) succeeds
+//     [later-batch-blocked, later-batch-fails].
+//
+// Tolerances (documented behaviour of the code, see workmanager.go): the hard
+// deadline is only looked at when a result for the batch arrives, and a cancel
+// channel is only watched by workers holding a job of the batch, so with no
+// peer (or no job in flight) such a batch legitimately waits - in the extreme
+// until Stop; nothing is asserted about how soon these two verdicts come
+// beyond the rules above.  Requests of a batch that ended because another of
+// its requests ran out of retries are still sent to peers once each: counted
+// (class request-issued-after-batch-verdict), not asserted.
 package c12
 
 import (
+	"encoding/json"
 	"fmt"
 	"io"
 	"os"
@@ -76,15 +115,18 @@ type Outcome struct {
 }
 
 // ReqSpec: attempt i of the request (i-th time it is queued to any peer) gets
-// Attempts[min(i, len-1)].
+// Attempts[i]; later attempts repeat the last one if Stubborn, and are
+// answered after one tick otherwise.
 type ReqSpec struct {
 	Attempts []Outcome `json:"attempts"`
+	Stubborn bool      `json:"stubborn"`
 }
 
 type BatchSpec struct {
 	At      int       `json:"at"` // tick of the Query call
 	Reqs    []ReqSpec `json:"reqs"`
-	Retry   int       `json:"retry"`   // -2 no option (default 2), -1 NoRetryMax, n>=0 NumRetries(n)
+	Retry   int       `json:"retry"`   // -2 no option (default 2), n>=0 NumRetries(n)
+	NoMax   bool      `json:"no_max"`  // NoRetryMax() ("If this is set then NumRetries has no effect")
 	Timeout int       `json:"timeout"` // -1 no option (30s), n>=0 Timeout(n ticks); Timeout(0) is documented as "fire immediately"
 	Idle    int       `json:"idle"`    // 0 no option, n>0 ProgressTimeout(n ticks)
 	Cancel  int       `json:"cancel"`  // -2 no Cancel option, -1 channel never closed, n>=0 closed at tick n (absolute)
@@ -96,18 +138,48 @@ type PeerSpec struct {
 	Disc int  `json:"disc"` // tick of disconnect, -1 never
 	Mute bool `json:"mute"` // never replies to anything
 	Lag  int  `json:"lag"`  // extra ticks before it starts replying
+	// Reuse = k > 0: this peer is a reconnect of the address of peer k-1 of
+	// the list, ReuseGap ticks after the last peer with that address has
+	// left (At is set accordingly by the generator).  0: a new address.
+	Reuse    int `json:"reuse"`
+	ReuseGap int `json:"reuse_gap"`
+
+	// sturdy is set only for the peer of the probe phase: it never drops
+	// the connection (a scripted "drop" is played as "silent").
+	sturdy bool
 }
 
 type Case struct {
 	Peers   []PeerSpec  `json:"peers"`
 	Batches []BatchSpec `json:"batches"`
-	StopAt  int         `json:"stop_at"` // -1: Stop after the probe phase; n>=0: Stop at tick n, no probe phase
+	StopAt  int         `json:"stop_at"` // -1: Stop at the end; n>=0: Stop at tick n
+	// ProbeAt: when the probe (one more well-behaved peer, one more batch
+	// that must succeed) is launched.  -1: once every scripted batch has its
+	// verdict (or after scriptTicks); n>=0: at tick n, whatever is going on.
+	// No probe once Stop has been called.
+	ProbeAt int `json:"probe_at"`
 }
+
+// An address reconnects at least one tick after the previous peer with that
+// address has left, i.e. after the dispatcher has dealt with the old worker's
+// last result.  A reconnect in the very instant of the disconnect (gap 0: the
+// new peer is announced while the old worker's "peer disconnected" result is
+// still in flight) is outside the generated domain: the dispatcher keys its
+// workers by address and the unchanged code can then dereference a nil worker
+// (workmanager.go, "r := workers[result.peer.Addr()]; r.activeJob = nil"),
+// which kills the test process.  C12_SAME_TICK_RECONNECT=1 adds gap 0 for
+// experiments.
+var reuseGaps = func() []int {
+	if os.Getenv("C12_SAME_TICK_RECONNECT") != "" {
+		return []int{0, 0, 1, 2, 5, 11}
+	}
+	return []int{1, 1, 2, 5, 11}
+}()
 
 func genOutcome(t *rapid.T) Outcome {
 	return Outcome{
-		Kind:  rapid.SampledFrom([]string{"answer", "answer", "answer", "silent", "drop"}).Draw(t, "kind"),
-		Delay: rapid.SampledFrom([]int{0, 0, 1, 1, 2, 3, 4, 5, 6, 8, 12, 20}).Draw(t, "delay"),
+		Kind:  rapid.SampledFrom([]string{"answer", "answer", "answer", "answer", "answer", "silent", "drop"}).Draw(t, "kind"),
+		Delay: rapid.SampledFrom([]int{0, 0, 1, 1, 1, 2, 2, 3, 4, 5, 6, 8, 12, 20}).Draw(t, "delay"),
 		Prog:  rapid.SampledFrom([]int{0, 0, 0, 1, 2, 3}).Draw(t, "prog"),
 		Gap:   rapid.IntRange(0, 5).Draw(t, "gap"),
 		Noise: rapid.Bool().Draw(t, "noise"),
@@ -128,30 +200,75 @@ func genCase(t *rapid.T) Case {
 		if rapid.IntRange(0, 9).Draw(t, "lagging") >= 8 {
 			p.Lag = rapid.IntRange(1, 6).Draw(t, "lag")
 		}
+		if rapid.IntRange(0, 9).Draw(t, "reconnect") >= 6 {
+			p.Reuse = rapid.IntRange(1, 4).Draw(t, "reuse")
+			p.ReuseGap = rapid.SampledFrom(reuseGaps).Draw(t, "reusegap")
+		}
 		return p
-	}), 0, 5).Draw(t, "peers")
+	}), rapid.SampledFrom([]int{0, 1, 1, 1, 2, 2, 3}).Draw(t, "minpeers"), 5).Draw(t, "peers")
+	// Normalise reconnects: an address is only reused once every earlier
+	// peer with that address has (been scheduled to) disconnect.
+	root := make([]int, len(c.Peers))
+	for i := range c.Peers {
+		p := &c.Peers[i]
+		root[i] = i
+		j := p.Reuse - 1
+		if j < 0 || j >= i {
+			p.Reuse, p.ReuseGap = 0, 0
+			continue
+		}
+		last, ok := -1, true
+		for k := 0; k < i; k++ {
+			if root[k] == root[j] {
+				if c.Peers[k].Disc < 0 {
+					ok = false
+				} else if c.Peers[k].Disc > last {
+					last = c.Peers[k].Disc
+				}
+			}
+		}
+		if !ok {
+			p.Reuse, p.ReuseGap = 0, 0
+			continue
+		}
+		root[i] = root[j]
+		stay := -1
+		if p.Disc >= 0 {
+			stay = p.Disc - p.At
+		}
+		p.At = last + p.ReuseGap
+		if stay >= 0 {
+			p.Disc = p.At + stay
+		}
+	}
 	c.Batches = rapid.SliceOfN(rapid.Custom(func(t *rapid.T) BatchSpec {
 		b := BatchSpec{}
 		b.At = rapid.IntRange(0, 30).Draw(t, "at")
 		b.Reqs = rapid.SliceOfN(rapid.Custom(func(t *rapid.T) ReqSpec {
-			return ReqSpec{Attempts: rapid.SliceOfN(rapid.Custom(genOutcome), 1, 4).Draw(t, "attempts")}
+			return ReqSpec{Attempts: rapid.SliceOfN(rapid.Custom(genOutcome), 1, 4).Draw(t, "attempts"),
+				Stubborn: rapid.IntRange(0, 9).Draw(t, "stubborn") >= 7}
 		}), 1, 6).Draw(t, "reqs")
-		b.Retry = rapid.SampledFrom([]int{-2, -2, -1, -1, 0, 1, 2, 3, 4}).Draw(t, "retry")
-		b.Timeout = rapid.SampledFrom([]int{-1, -1, -1, 70, 40, 20, 10, 6, 4, 2, 1, 0}).Draw(t, "timeout")
-		b.Idle = rapid.SampledFrom([]int{0, 0, 0, 20, 10, 6, 4, 3, 2, 1}).Draw(t, "idle")
+		b.Retry = rapid.SampledFrom([]int{-2, -2, 0, 1, 2, 3, 4}).Draw(t, "retry")
+		b.NoMax = rapid.IntRange(0, 9).Draw(t, "nomax") >= 7
+		b.Timeout = rapid.SampledFrom([]int{-1, -1, -1, -1, -1, 70, 40, 20, 10, 6, 2, 0}).Draw(t, "timeout")
+		b.Idle = rapid.SampledFrom([]int{0, 0, 0, 0, 0, 0, 0, 0, 0, 40, 20, 10, 6, 4, 3, 2, 1}).Draw(t, "idle")
 		b.Cancel = -2
 		switch rapid.IntRange(0, 9).Draw(t, "cancelmode") {
-		case 5:
+		case 6:
 			b.Cancel = -1
-		case 6, 7, 8, 9:
+		case 7, 8, 9:
 			b.Cancel = rapid.IntRange(0, 50).Draw(t, "cancel")
 		}
 		b.Unread = rapid.IntRange(0, 9).Draw(t, "unread") >= 8
 		return b
-	}), 1, 4).Draw(t, "batches")
+	}), rapid.SampledFrom([]int{1, 2, 2, 3}).Draw(t, "minbatches"), 4).Draw(t, "batches")
 	c.StopAt = -1
-	if rapid.IntRange(0, 9).Draw(t, "stopearly") >= 7 {
+	if rapid.IntRange(0, 9).Draw(t, "stopearly") >= 8 {
 		c.StopAt = rapid.IntRange(0, 80).Draw(t, "stop")
+	}
+	c.ProbeAt = -1
+	if rapid.Bool().Draw(t, "probeearly") {
+		c.ProbeAt = rapid.IntRange(0, 60).Draw(t, "probe")
 	}
 	return c
 }
@@ -210,6 +327,9 @@ type reqState struct {
 
 func (r *reqState) outcome(att int) Outcome {
 	if att >= len(r.spec.Attempts) {
+		if !r.spec.Stubborn {
+			return Outcome{Kind: "answer", Delay: 1}
+		}
 		att = len(r.spec.Attempts) - 1
 	}
 	return r.spec.Attempts[att]
@@ -282,8 +402,8 @@ type mockPeer struct {
 	lastReq      *reqState
 	lastIssueAt  time.Duration
 	nIssues      int
-	nRankEvts    int
 	probeHit     *reqState
+	offeredAt    time.Duration
 }
 
 type issueRec struct {
@@ -312,7 +432,8 @@ type harness struct {
 
 	mu           sync.Mutex
 	peers        []*mockPeer
-	byAddr       map[string]*mockPeer
+	byAddr       map[string][]*mockPeer // incarnations of an address, in list order
+	rankEvts     map[string]int         // Reward/Punish/ResetRanking calls per address
 	batches      []*batchState
 	reqs         []*reqState
 	score        map[string]int
@@ -334,8 +455,12 @@ type harness struct {
 	overlap      bool
 	zombie       bool
 	rankDecisive bool
-	rankChecked  bool
-	lazy         bool
+	probeAmidst  bool // the probe was launched while scripted batches were in flight
+	// a peer connected in the very tick in which the previous peer with the
+	// same address disconnected
+	sameInstantReuse bool
+	rankChecked      bool
+	lazy             bool
 }
 
 func (h *harness) now() time.Duration { return time.Since(h.start) }
@@ -353,6 +478,10 @@ func (h *harness) logf(format string, a ...any) {
 }
 
 func (h *harness) fail(sig, format string, a ...any) {
+	if h.sameInstantReuse && strings.HasPrefix(sig, "C12/dispatcher-stuck/") {
+		// only reachable with C12_SAME_TICK_RECONNECT (see reuseGaps)
+		sig = "C12/address-reconnects-in-disconnect-instant/" + strings.TrimPrefix(sig, "C12/")
+	}
 	if h.v.Violation == "" {
 		h.v.Logf("%s VIOLATION %s: %s", ts(h.now()), sig, fmt.Sprintf(format, a...))
 	}
@@ -506,7 +635,9 @@ func (p *mockPeer) play(r *reqState, oc Outcome) {
 	case "answer":
 		p.send(&tmsg{Kind: kFinal, Req: r.id, Peer: p.idx})
 	case "drop":
-		p.disconnect("drops the connection while serving")
+		if !p.spec.sturdy {
+			p.disconnect("drops the connection while serving")
+		}
 	}
 }
 
@@ -623,15 +754,42 @@ func (h *harness) onRank(kind, addr string) {
 	if known {
 		h.score[addr] = s
 	}
-	p := h.byAddr[addr]
-	if p == nil {
-		h.v.Harness = "ranking call for unknown peer " + addr
-		return
-	}
-	p.nRankEvts++
+	h.rankEvts[addr]++
 	if kind == "reward" {
 		return
 	}
+	// Which peer with that address?  Results are processed in the instant
+	// they arise, so it is the one that is connected, or that disconnected
+	// just now; only when an address reconnects in the very tick of the
+	// disconnect are there two candidates.
+	var cands []*mockPeer
+	for _, q := range h.byAddr[addr] {
+		if !q.offered {
+			continue
+		}
+		switch kind {
+		case "reset":
+			if q.disconnected && q.discAt == now {
+				cands = append(cands, q)
+			}
+		case "punish":
+			if (!q.disconnected || q.discAt == now) && q.lastReq != nil && now-q.lastIssueAt >= minJobTimeout {
+				cands = append(cands, q)
+			}
+		}
+	}
+	if len(cands) == 0 {
+		for _, q := range h.byAddr[addr] {
+			if q.offered {
+				cands = append(cands[:0], q) // the latest, to have a name in the message
+			}
+		}
+		if len(cands) == 0 {
+			h.v.Harness = "ranking call for unknown peer " + addr
+			return
+		}
+	}
+	p := cands[len(cands)-1]
 
 	// A job failed on peer p and the dispatcher took note of it (it only
 	// does so for batches that have no verdict yet).
@@ -646,7 +804,7 @@ func (h *harness) onRank(kind, addr string) {
 	// one); that requires a batch without verdict whose cancel channel is
 	// closed, and then the attribution is marked ambiguous.
 	r := p.lastReq
-	fe := failEvt{t: now, p: p, kind: kind, r: r}
+	fe := failEvt{t: now, p: p, kind: kind, r: r, ambiguous: len(cands) > 1}
 	switch kind {
 	case "punish":
 		if r == nil || now-p.lastIssueAt < minJobTimeout {
@@ -654,8 +812,8 @@ func (h *harness) onRank(kind, addr string) {
 				addr, ts(now), minJobTimeout)
 		}
 	case "reset":
-		if !p.disconnected {
-			h.fail("C12/failure-without-cause", "a job on peer %s was failed as 'peer disconnected' at %s but the peer is connected", addr, ts(now))
+		if !p.disconnected || p.discAt != now {
+			h.fail("C12/failure-without-cause", "a job on peer %s was failed as 'peer disconnected' at %s but no peer with that address disconnected then", addr, ts(now))
 		}
 		for _, b := range h.batches {
 			if vt, ok := b.firstVerdictAt(); b.cancelClosed && b.returned && (!ok || vt >= now) {
@@ -705,8 +863,11 @@ func (h *harness) connectedPeers() (<-chan query.Peer, func(), error) {
 func (h *harness) newPeer(spec PeerSpec) *mockPeer {
 	p := &mockPeer{h: h, idx: len(h.peers), spec: spec, quit: make(chan struct{})}
 	p.addr = fmt.Sprintf("p%d", p.idx)
+	if spec.Reuse > 0 {
+		p.addr = h.peers[spec.Reuse-1].addr
+	}
 	h.peers = append(h.peers, p)
-	h.byAddr[p.addr] = p
+	h.byAddr[p.addr] = append(h.byAddr[p.addr], p)
 	return p
 }
 
@@ -721,13 +882,10 @@ func (h *harness) newBatch(spec BatchSpec, probe bool) *batchState {
 		h.reqs = append(h.reqs, r)
 		b.reqs = append(b.reqs, r)
 	}
-	switch {
-	case spec.Retry == -1:
-		b.noMax = true
-	case spec.Retry == -2:
+	b.noMax = spec.NoMax
+	b.capN = spec.Retry
+	if spec.Retry == -2 {
 		b.capN = defaultRetries
-	default:
-		b.capN = spec.Retry
 	}
 	if b.capN < 1 {
 		// NumRetries(0): the first failure already reaches the cap.
@@ -752,8 +910,15 @@ func (h *harness) newBatch(spec BatchSpec, probe bool) *batchState {
 func (h *harness) connect(p *mockPeer) {
 	h.mu.Lock()
 	p.offered = true
+	p.offeredAt = h.now()
 	h.activity++
-	h.logf("peer %s connects%s", p.addr, map[bool]string{true: " (mute)", false: ""}[p.spec.Mute])
+	for _, q := range h.byAddr[p.addr] {
+		if q != p && q.offered && (!q.disconnected || q.discAt == p.offeredAt) {
+			// (the scheduled disconnect of q is issued in this same tick)
+			h.sameInstantReuse = true
+		}
+	}
+	h.logf("peer %s (#%d) connects%s", p.addr, p.idx, map[bool]string{true: " (mute)", false: ""}[p.spec.Mute])
 	h.mu.Unlock()
 	go func() {
 		select {
@@ -773,10 +938,10 @@ func (h *harness) submit(b *batchState) {
 	}
 	var opts []query.QueryOption
 	sp := b.spec
-	switch {
-	case sp.Retry == -1:
+	if sp.NoMax {
 		opts = append(opts, query.NoRetryMax())
-	case sp.Retry >= 0:
+	}
+	if sp.Retry >= 0 {
 		opts = append(opts, query.NumRetries(uint8(sp.Retry)))
 	}
 	if sp.Timeout >= 0 {
@@ -793,7 +958,7 @@ func (h *harness) submit(b *batchState) {
 	b.submitAt = h.now()
 	h.nSubmits++
 	h.activity++
-	h.logf("Query(%s: %d requests, retry=%d timeout=%v idle=%v cancel=%d unread=%v)", b.name, len(reqs), sp.Retry, b.hardT, b.idleP, sp.Cancel, sp.Unread)
+	h.logf("Query(%s: %d requests, retry=%d nomax=%v timeout=%v idle=%v cancel=%d unread=%v)", b.name, len(reqs), sp.Retry, sp.NoMax, b.hardT, b.idleP, sp.Cancel, sp.Unread)
 	h.mu.Unlock()
 	go func() {
 		ch := h.wm.Query(reqs, opts...)
@@ -1002,7 +1167,7 @@ func (h *harness) checkpoint() {
 		verdicts: h.nVerdicts, cancels: h.nCancels, submits: h.nSubmits}
 	for _, p := range h.peers {
 		sn.nIssues[p.idx] = p.nIssues
-		sn.nRankEvts[p.idx] = p.nRankEvts
+		sn.nRankEvts[p.idx] = h.rankEvts[p.addr]
 		sn.score[p.idx] = h.score[p.addr]
 	}
 	if pv := h.prev; pv != nil && pv.verdicts == sn.verdicts && pv.cancels == sn.cancels {
@@ -1050,7 +1215,8 @@ func (h *harness) run() {
 	h.start = time.Now()
 	h.done = make(chan struct{})
 	h.peerCh = make(chan query.Peer)
-	h.byAddr = map[string]*mockPeer{}
+	h.byAddr = map[string][]*mockPeer{}
+	h.rankEvts = map[string]int{}
 	h.score = map[string]int{}
 
 	var evs []event
@@ -1121,43 +1287,50 @@ func (h *harness) run() {
 		h.mu.Lock()
 		failed := h.v.Violation != "" || h.v.Harness != ""
 		stopped := h.stopCalled
-		quiet := next == len(evs)
+		quiet := true
 		for _, b := range h.batches {
 			if !b.probe && b.submitted && b.alive() {
 				quiet = false
 			}
 		}
-		probeDone := probe != nil && !probe.alive() && probe.returned
 		h.mu.Unlock()
-		if failed || probeDone {
+		over := next == len(evs) && (quiet || tk >= scriptTicks)
+		if failed {
 			break
 		}
-		if stopped {
-			if next == len(evs) {
-				break
-			}
-		} else if probe == nil && (quiet || tk >= scriptTicks) && next == len(evs) {
-			// Probe phase: "a finished, cancelled or timed-out batch never
-			// blocks later batches".  One more peer connects and one more
-			// batch, whose single request every peer answers at once, is
-			// submitted; it must succeed.
-			h.connect(h.newPeer(PeerSpec{Disc: -1}))
+		if !stopped && probe == nil && (over || (c.ProbeAt >= 0 && tk >= c.ProbeAt)) {
+			// Probe: "a finished, cancelled or timed-out batch never blocks
+			// later batches".  One more peer connects (it never drops the
+			// connection) and one more batch, whose single request every
+			// peer answers at once, is submitted; it must succeed.
+			h.mu.Lock()
+			pp := h.newPeer(PeerSpec{Disc: -1, sturdy: true})
 			probe = h.newBatch(BatchSpec{Reqs: []ReqSpec{{Attempts: []Outcome{{Kind: "answer"}}}},
-				Retry: -1, Timeout: 4 * probeTicks, Cancel: -2}, true)
+				Retry: -2, NoMax: true, Timeout: 4 * probeTicks, Cancel: -2}, true)
+			h.mu.Unlock()
+			if !quiet {
+				h.probeAmidst = true
+			}
+			h.connect(pp)
 			probeStart = tk
 			h.submit(probe)
 			synctest.Wait()
 			h.checkpoint()
+		}
+		probeDone := false
+		if probe != nil {
 			h.mu.Lock()
 			probeDone = !probe.alive() && probe.returned
+			failed = h.v.Violation != "" || h.v.Harness != ""
 			h.mu.Unlock()
-			if probeDone {
-				break
-			}
-		} else if probe != nil && tk-probeStart > probeTicks {
+		}
+		if failed || (stopped && next == len(evs)) || (probeDone && over) {
+			break
+		}
+		if probe != nil && !probeDone && tk-probeStart > probeTicks {
 			h.mu.Lock()
-			h.fail("C12/later-batch-blocked", "a batch submitted at %s, after every scripted batch had ended or %d ticks had passed, with a fresh well-behaved peer connected, has no verdict %d ticks later",
-				ts(probe.submitAt), scriptTicks, probeTicks)
+			h.fail("C12/later-batch-blocked", "the probe batch submitted at %s, with a fresh well-behaved peer connected, has no verdict %d ticks later",
+				ts(probe.submitAt), probeTicks)
 			h.mu.Unlock()
 			break
 		}
@@ -1286,6 +1459,11 @@ func (h *harness) final() {
 		case nil:
 			cls = "success"
 			for _, r := range b.reqs {
+				if r.issues > 1 {
+					cls = "success-after-retry"
+				}
+			}
+			for _, r := range b.reqs {
 				if !r.finished || r.finishedAt > vt {
 					h.fail("C12/success-with-unanswered-request", "%s reported success at %s but its request %d had not been answered", b.name, ts(vt), r.id)
 				}
@@ -1323,7 +1501,7 @@ func (h *harness) final() {
 			h.fail("C12/undocumented-error", "%s got the undocumented error %q", b.name, err)
 		}
 		if b.probe {
-			if err != nil {
+			if err != nil && !(err == query.ErrWorkManagerShuttingDown && h.c.StopAt >= 0) {
 				h.fail("C12/later-batch-fails", "the probe batch (NoRetryMax, no cancel, timeout %v, every peer answers it at once) ended with %q", b.hardT, err)
 			}
 			v.Class("probe-batch:%s", cls)
@@ -1363,6 +1541,11 @@ func (h *harness) final() {
 
 func runCase(t *testing.T, c Case) (v kit.Verdict) {
 	h := &harness{c: c, v: &v}
+	if os.Getenv("VERIF_DEBUG") == "cases" {
+		// a panic in a dispatcher goroutine kills the process: leave a trail
+		b, _ := json.Marshal(c)
+		fmt.Fprintf(os.Stderr, "CASE %s\n", b)
+	}
 	defer func() {
 		if r := recover(); r != nil {
 			msg := fmt.Sprint(r)
@@ -1393,6 +1576,12 @@ func runCase(t *testing.T, c Case) (v kit.Verdict) {
 	if h.lazy {
 		v.Class("verdict-deferred(deadline-or-cancel-not-yet-noticed)")
 	}
+	for _, p := range c.Peers {
+		if p.Reuse > 0 {
+			v.Class("address-reconnects")
+			break
+		}
+	}
 	if h.rankChecked {
 		v.Class("rank-choice-observed")
 	}
@@ -1401,6 +1590,26 @@ func runCase(t *testing.T, c Case) (v kit.Verdict) {
 	}
 	if c.StopAt >= 0 {
 		v.Class("stop-early")
+	}
+	if h.probeAmidst {
+		v.Class("probe-launched-amid-live-batches")
+	}
+	for _, b := range c.Batches {
+		if b.Unread {
+			v.Class("batch-option:result-channel-never-read")
+		}
+		if b.NoMax {
+			v.Class("batch-option:no-retry-max")
+		}
+		if b.Timeout == 0 {
+			v.Class("batch-option:timeout(0)")
+		}
+		if b.Idle > 0 {
+			v.Class("batch-option:progress-timeout")
+		}
+		if b.Cancel >= 0 {
+			v.Class("batch-option:cancel")
+		}
 	}
 	if h.maxTries > 0 {
 		v.Class("on-max-tries-called")
